@@ -219,6 +219,37 @@ def rule_license_path(ck: Check, repo: Repo) -> None:
             r.violation(q, f"[{show_valuation(d)}]", f"returns {leaf.outcome[1]}, expected {exp[1]}", repo.loc(fn))
 
 
+def selection_table(r, repo: Repo) -> None:
+    """find_annotations_item as a decision table: the outcome depends on nothing but whether some table matches the
+    POSIX path (a path-shape shortcut in front of the loop silently un-covers files)."""
+    q = f"{GL}.ReuseTOML.find_annotations_item"
+    fn = repo.func(q)
+
+    class HS(Hooks):
+        def atom(self, text, node, it):
+            m = re.fullmatch(r"any\((\w+)\.matches\(PurePath\(path\)\.as_posix\(\)\) for (\w+) in (.+)\)", text)
+            if m and m.group(1) == m.group(2):
+                return "some_table_matches"
+            return None
+
+    def ref(v):
+        return ("return", "<the matching table>") if v("some_table_matches") else ("return", "None")
+
+    leaves = tabulate(fn, HS(), ref, params=["self", "path"])
+    r.floor(2, "paths through find_annotations_item", got=len(leaves))
+    for d, leaf, exp in leaves:
+        got = leaf.outcome[:2]
+        if got[0] == "return" and got[1] not in ("None",) and re.fullmatch(r"\w+", got[1]):
+            got = ("return", "<the matching table>")
+        r.instance("selection:" + show_valuation(d), {"valuation": show_valuation(d), "returns": leaf.outcome[1]})
+        if got != exp:
+            free = [a[1:] for a in d if a.startswith("?")]
+            r.violation(q, f"[{show_valuation(d)}] selection outcome",
+                        f"returns {leaf.outcome[1]}, the specification says {exp[1]}"
+                        + (f": the result depends on {free[0]!r}, but only the globs decide which table covers a path" if free else ""),
+                        f"{repo.module(GL).rel}:{leaf.trace[-1] if leaf.trace else fn.lineno}", {"valuation": d})
+
+
 def rule_single_toml(ck: Check, repo: Repo) -> None:
     r = ck.rule("R3", "within one REUSE.toml the last matching [[annotations]] table applies; provenance is named")
     q = f"{GL}.ReuseTOML.find_annotations_item"
@@ -238,6 +269,7 @@ def rule_single_toml(ck: Check, repo: Repo) -> None:
     if it not in ("reversed(self.annotations)", "self.annotations[::-1]"):
         r.violation(q, f"selection iterates {it}", "the LAST matching table must win: iterate reversed(self.annotations)"
                     " and return the first match", repo.loc(lp))
+    selection_table(r, repo)
     q2 = f"{GL}.ReuseTOML.reuse_info_of"
     fn2 = repo.func(q2)
 
